@@ -12,6 +12,7 @@ mod c10;
 mod c11;
 mod c16;
 mod c17;
+mod c20;
 mod content;
 mod driver;
 mod faults;
@@ -75,6 +76,10 @@ macro_rules! with_engine {
                 let $e = c16::C16;
                 $body
             }
+            "C20" => {
+                let $e = c20::C20;
+                $body
+            }
             "C17" => {
                 let $e = c17::C17;
                 $body
@@ -95,7 +100,7 @@ macro_rules! with_engine {
     };
 }
 
-pub const ALL_ENGINES: &[&str] = &["C02", "C03", "C04", "C05", "C06", "C07", "C08", "C09", "C10", "C11", "C16", "C17"];
+pub const ALL_ENGINES: &[&str] = &["C02", "C03", "C04", "C05", "C06", "C07", "C08", "C09", "C10", "C11", "C16", "C17", "C20"];
 
 fn do_replay<E: Engine>(engine: &E, path: &Path) -> i32 {
     match runner::replay(engine, path) {
